@@ -109,6 +109,19 @@ def run(ctx):
                 ctx.finding("hash-error:" + c["x"]["k"], "Hash() failed on %s" % c["x"], c)
                 continue
             t = "(CHash %s %s)" % (val(c["x"]), cz(int(c["r"]["z"])))
+        elif c["kind"] == "law":
+            r = c["r"]
+            key = "law:" + c["op"][:40]
+            dist["law"] = dist.get("law", 0) + 1
+            if not (r["k"] == "bool" and r.get("b")):
+                # laws involving +-1h/1s may leave the int64 nanosecond range at the extremes: skip those
+                n = int(c["x"]["ns"])
+                if ("time.hour" in c["op"] or "time.second" in c["op"]) and abs(n) > 2**63 - 4 * 10**12:
+                    continue
+                if "from_timestamp(0)" in c["op"] and abs(n) > 2**63 - 4 * 10**12:
+                    continue
+                ctx.finding(key, "law `%s` does not hold for %s: %s" % (c["op"], c["x"], r), c)
+            continue
         else:  # ts: attribute / constructor round trips
             src, r = c["op"], c["r"]
             ns = int(c["x"]["ns"])
